@@ -127,12 +127,25 @@ class Built:
             on_attempt_start=a_call_s, on_attempt_end=a_call_e,
         )
         self.timeline_mode = hooks.get("timeline")
-        self.decorated = None
+        self._att_pol = dict(on_attempt_start=a_pol_s, on_attempt_end=a_pol_e)
+        self._att_call = (a_call_s, a_call_e)
+        self._targets = {}
+        self.target_for(entry)
+
+    def target_for(self, entry):
+        """(target object, decorated function) for an entry point; all targets of a
+        scenario share the same budget / breaker / callbacks."""
+        if entry in self._targets:
+            return self._targets[entry]
+        env, rkw, is_async = self.env, self.rkw, self.is_async
+        R = AsyncRetry if is_async else Retry
+        P = AsyncPolicy if is_async else Policy
+        RP = AsyncRetryPolicy if is_async else RetryPolicy
         base = entry.split(".")[0]
-        att_pol = dict(on_attempt_start=a_pol_s, on_attempt_end=a_pol_e)
+        att_pol = self._att_pol
+        target = decorated = None
         if entry == NORETRY:
-            env.res_enabled = False
-            self.target = P(retry=None, circuit_breaker=self.breaker)
+            target = P(retry=None, circuit_breaker=self.breaker)
         elif entry.endswith("from_config"):
             rc = RetryConfig(
                 deadline_s=rkw["deadline_s"], attempt_timeout_s=rkw.get("attempt_timeout_s"),
@@ -140,24 +153,25 @@ class Built:
                 per_class_max_attempts=rkw["per_class_max_attempts"], default_strategy=rkw["strategy"],
                 class_strategies=rkw["strategies"], result_classifier=rkw["result_classifier"],
                 sleep=rkw["sleep"], before_sleep=rkw["before_sleep"], sleeper=rkw["sleeper"], budget=rkw["budget"])
-            self.target = (R if base == "Retry" else RP).from_config(rc, classifier=env.classifier)
+            target = (R if base == "Retry" else RP).from_config(rc, classifier=env.classifier)
         elif base == "Retry":
-            self.target = R(**rkw, **att_pol)
+            target = R(**rkw, **att_pol)
         elif base == "Policy":
-            self.target = P(retry=R(**rkw, **att_pol), circuit_breaker=self.breaker)
+            target = P(retry=R(**rkw, **att_pol), circuit_breaker=self.breaker)
         elif base == "RetryPolicy":
-            self.target = RP(**rkw)
+            target = RP(**rkw)
         elif entry == "decorator":
             dkw = dict(rkw)
             dkw.update(on_metric=self.call_kw["on_metric"], on_log=self.call_kw["on_log"],
                        operation=self.call_kw["operation"], abort_if=self.call_kw["abort_if"],
-                       on_attempt_start=a_call_s, on_attempt_end=a_call_e)
+                       on_attempt_start=self._att_call[0], on_attempt_end=self._att_call[1])
             if dkw["strategy"] is None and dkw["strategies"] is None:
                 dkw["strategies"] = {}
-            self.target = None
-            self.decorated = retry_decorator(**dkw)(env.op_async if is_async else env.op_sync)
+            decorated = retry_decorator(**dkw)(env.op_async if is_async else env.op_sync)
         else:
             raise AssertionError(entry)
+        self._targets[entry] = (target, decorated)
+        return target, decorated
 
 
 # ---------------------------------------------------------------------------
@@ -229,36 +243,36 @@ def _timeline_arg(built: Built):
     return True if tm else None
 
 
-def _invoke_sync(built: Built, env: Env):
+def _invoke_sync(built: Built, env: Env, e: str, how: str):
     kw = dict(built.call_kw)
-    e = built.entry
+    target, decorated = built.target_for(e)
     if e == "decorator":
-        return built.decorated()
+        return decorated()
     if e.endswith(".context"):
-        with built.target.context(**kw) as call:
+        with target.context(**kw) as call:
             return call(env.op_sync)
-    if built.how == "execute":
-        return built.target.execute(env.op_sync, capture_timeline=_timeline_arg(built), **kw)
-    return built.target.call(env.op_sync, **kw)
+    if how == "execute":
+        return target.execute(env.op_sync, capture_timeline=_timeline_arg(built), **kw)
+    return target.call(env.op_sync, **kw)
 
 
-async def _invoke_async(built: Built, env: Env):
+async def _invoke_async(built: Built, env: Env, e: str, how: str):
     kw = dict(built.call_kw)
-    e = built.entry
+    target, decorated = built.target_for(e)
     if e == "decorator":
-        return await built.decorated()
+        return await decorated()
     if e.endswith(".context"):
-        async with built.target.context(**kw) as call:
+        async with target.context(**kw) as call:
             return await call(env.op_async)
-    if built.how == "execute":
-        return await built.target.execute(env.op_async, capture_timeline=_timeline_arg(built), **kw)
-    return await built.target.call(env.op_async, **kw)
+    if how == "execute":
+        return await target.execute(env.op_async, capture_timeline=_timeline_arg(built), **kw)
+    return await target.call(env.op_async, **kw)
 
 
-def _end_event(env, cs, built, result=None, exc=None):
+def _end_event(env, cs, built, entry, how, result=None, exc=None):
     if exc is not None:
         env.ev("CALL_END", how="raise", exc=describe_exception(env, cs, exc))
-    elif built.how == "execute" and built.entry != "decorator" and not built.entry.endswith(".context"):
+    elif how == "execute" and entry != "decorator" and not entry.endswith(".context"):
         env.ev("CALL_END", how="outcome", out=describe_outcome(env, cs, result))
     else:
         env.ev("CALL_END", how="return", value=_label(env, cs, result))
@@ -267,13 +281,15 @@ def _end_event(env, cs, built, result=None, exc=None):
 def run_call_sync(built: Built, env: Env, cid: int, script: dict) -> None:
     cs = CallState(cid, script)
     env.cur = cs
-    env.ev("CALL_BEGIN", entry=built.entry, how=built.how)
+    entry, how = script.get("entry", built.entry), script.get("how", built.how)
+    env.res_enabled = bool(env.cfg.get("result_classifier")) and entry != NORETRY
+    env.ev("CALL_BEGIN", entry=entry, how=how)
     try:
-        res = _invoke_sync(built, env)
+        res = _invoke_sync(built, env, entry, how)
     except BaseException as exc:  # noqa: BLE001 - the trace records whatever leaves the call
-        _end_event(env, cs, built, exc=exc)
+        _end_event(env, cs, built, entry, how, exc=exc)
     else:
-        _end_event(env, cs, built, result=res)
+        _end_event(env, cs, built, entry, how, result=res)
     finally:
         env.cur = None
 
@@ -283,15 +299,17 @@ async def run_call_async(built: Built, env: Env, cid: int, script: dict) -> None
     task = asyncio.current_task()
     env._cs_by_task[task] = cs
     cs.task = task
-    env.ev("CALL_BEGIN", entry=built.entry, how=built.how)
+    entry, how = script.get("entry", built.entry), script.get("how", built.how)
+    cs.res_enabled = bool(env.cfg.get("result_classifier")) and entry != NORETRY
+    env.ev("CALL_BEGIN", entry=entry, how=how)
     try:
-        res = await _invoke_async(built, env)
+        res = await _invoke_async(built, env, entry, how)
     except BaseException as exc:  # noqa: BLE001
-        _end_event(env, cs, built, exc=exc)
+        _end_event(env, cs, built, entry, how, exc=exc)
         if isinstance(exc, asyncio.CancelledError) and task.cancelling():
             task.uncancel()
     else:
-        _end_event(env, cs, built, result=res)
+        _end_event(env, cs, built, entry, how, result=res)
     finally:
         env._cs_by_task.pop(task, None)
 
